@@ -49,7 +49,8 @@ QueriesE3 == { QAmp(<<1, 0, 1>>), QDense(FALSE), QPtr(<<0>>), QPtr(<<2>>), QPtr(
 GatesP3 == { G("H", <<0>>, e0, e0), G("T", <<2>>, e0, e0), G("CX", <<0, 2>>, e0, e0), G("CX", <<2, 0>>, e0, e0),
              G("ISWAP", <<1, 2>>, e0, e0), G("R2A", <<2, 0>>, e0, e0), G("CZ", <<1, 0>>, e0, e0), G("IDEN", <<1>>, e0, e0),
              G("RY", <<1>>, e0, <<2>>), G("X", <<1>>, <<0>>, e0), G("CCX", <<0, 2, 1>>, e0, e0),
-             G("SWAP", <<0, 1>>, e0, e0), G("SWAP", <<0, 2>>, e0, e0), G("X", <<1>>, <<2>>, e0), G("CX", <<0, 1>>, <<2>>, e0) }
+             G("SWAP", <<0, 1>>, e0, e0), G("SWAP", <<0, 2>>, e0, e0), G("X", <<1>>, <<2>>, e0), G("CX", <<0, 1>>, <<2>>, e0),
+             G("X", <<0>>, <<1>>, e0) }
 GatesP3q == { G("H", <<0>>, e0, e0), G("T", <<2>>, e0, e0), G("CX", <<0, 2>>, e0, e0), G("CX", <<2, 0>>, e0, e0),
               G("R2A", <<2, 1>>, e0, e0), G("IDEN", <<1>>, e0, e0), G("X", <<1>>, <<0>>, e0), G("CCX", <<0, 2, 1>>, e0, e0),
               G("SWAP", <<0, 1>>, e0, e0), G("SWAP", <<0, 2>>, e0, e0) }
